@@ -26,7 +26,7 @@ StatusTable == {0, 1, 2, 3, 4, 5, 6, 32, 33, 129, 130, 131, 132, 133, 134}
 VARIABLES l, sm, run, viol, cov
 vars == <<l, sm, run, viol, cov>>
 
-NoStream == [id |-> 0, limit |-> 0, frames |-> <<>>, starts |-> <<>>, len |-> 0, first |-> <<>>, dead |-> FALSE]
+NoStream == [id |-> 0, limit |-> 0, frames |-> <<>>, starts |-> <<>>, len |-> 0, first |-> <<>>, dead |-> FALSE, expect |-> <<>>]
 NoRun == [u |-> 0, fi |-> 1, fed |-> 0, closed |-> FALSE, dead |-> TRUE]
 
 Init == l = 1 /\ sm = NoStream /\ run = NoRun /\ viol = <<>> /\ cov = <<>>
@@ -90,7 +90,8 @@ Step ==
     /\ LET e == Rec[l] IN
        IF e.e = "stream" THEN
             /\ sm' = [id |-> e.id, limit |-> e.limit, frames |-> e.frames, starts |-> Starts(e.frames, 1, 0),
-                      len |-> e.len, first |-> <<>>, dead |-> FALSE]
+                      len |-> e.len, first |-> <<>>, dead |-> FALSE,
+                      expect |-> IF "expect" \in DOMAIN e THEN <<e.expect>> ELSE <<>>]
             /\ run' = NoRun /\ UNCHANGED <<viol, cov>>
        ELSE IF e.e = "run" THEN
             /\ run' = [u |-> e.u, fi |-> 1, fed |-> 0, closed |-> FALSE, dead |-> sm.dead]
@@ -125,6 +126,10 @@ Step ==
             IF e.panic THEN /\ viol' = Append(viol, [line |-> l, stream |-> sm.id, u |-> run.u, tags |-> {"C10"}, rule |-> "panic",
                                                       fi |-> run.fi, cls |-> "?"])
                             /\ sm' = [sm EXCEPT !.dead = TRUE] /\ UNCHANGED <<run, cov>>
+            ELSE IF sm.expect # <<>> /\ [i \in 1..Len(sm.expect[1].resp) |-> sm.expect[1].resp[i][1]] # e.ropq THEN
+                 /\ viol' = Append(viol, [line |-> l, stream |-> sm.id, u |-> run.u, tags |-> {"DRIFT"},
+                                          rule |-> "model.mismatch", fi |-> run.fi, cls |-> "?"])
+                 /\ sm' = [sm EXCEPT !.dead = TRUE] /\ UNCHANGED <<run, cov>>
             ELSE IF sm.first = <<>> THEN sm' = [sm EXCEPT !.first = <<Summary(e)>>] /\ cov' = Count(cov, "universe") /\ UNCHANGED <<run, viol>>
             ELSE IF sm.first[1] = Summary(e) THEN cov' = Count(cov, "universe") /\ UNCHANGED <<sm, run, viol>>
             ELSE /\ viol' = Append(viol, [line |-> l, stream |-> sm.id, u |-> run.u, tags |-> {"C09"},
